@@ -27,6 +27,7 @@ RULES = {
     "R12.3": "config.max_checkpoints / enable_async_checkpointing reach CheckpointManagerOptions(max_to_keep=, enable_async_checkpointing=) through all hops",
     "R12.4": "in _setup_checkpointing the `checkpoint_frequency == 0` return dominates mkdir, manager creation and the config write",
     "R12.5": "_save_solver_config() is called iff has_full_config",
+    "R12.9": "what is written to and kept in a solver's directory is governed by THAT solver's settings: no module-level or class-level mutable container (a cache of checkpoint managers, options, directories) is written by any function of the package, so a manager made for another solver's max_checkpoints / async flag is never handed out again (instances of C19 R19.5; expected count zero)",
     "R12.8": "every retained step holds the solver state of that iteration: between a step and the save that records it, saved state is written only by storing the step's results (instances of C09 R9.7)",
     "R12.7": "restore(): an explicit checkpoint_frequency / max_checkpoints override - including 0, which disables checkpointing - reaches the configuration (guarded by `is not None`, not by truthiness)",
     "R12.6": "file-system effects on a checkpoint directory occur only at the frozen sites (mkdir + OmegaConf.save in set-up, CheckpointManager(create=True) in _create_checkpoint_manager, checkpoint_manager.save)",
@@ -56,6 +57,22 @@ def bind_args(call: ast.Call, fn: ast.FunctionDef, skip_first=True):
     return out
 
 
+def _shared_state(ctx, col):
+    from .c19 import _class_state, _module_state
+
+    class _As:
+        def __init__(self, col):
+            self.col = col
+
+        def add(self, rule, *a, **k):
+            return self.col.add("R12.9", *a, **k)
+
+        def __getattr__(self, n):
+            return getattr(self.col, n)
+
+    _module_state(ctx, _As(col))
+
+
 def run(ctx: Context, col) -> None:
     from .common import Parts
 
@@ -73,7 +90,9 @@ def run(ctx: Context, col) -> None:
     part(_enabled, ctx, col)
     part(_writers, ctx, col)
     part(_override_zero, ctx, col)
+    part(_shared_state, ctx, col)
     part.finish()
+    col.floor("R12.9", 1)
     col.floor("R12.8", 5)
     col.floor("R12.7", 2)
     col.floor("R12.1", 6)
